@@ -21,14 +21,18 @@ def r04_1(cx):
             continue
         ti = j.get('trait_item', '')
         name = j['name']
-        t = strip_convs(b.local_term(0, expand=True))
-        params = [('v', b.locals[i]['names'][0] if b.locals[i]['names'] else '_%d' % i, i) for i in range(2, j['arg_count'] + 1)]
+        # on the path summary (helpers that are not vocabulary unfolded): one path, no decision, no store, and the value returned is
+        # the namesake called on self with the parameters in order
+        from acverif.sym import summarize, canon, cstr
+        rows = summarize(cx.facts, b)
+        params = [cstr(param_at(b, i)) for i in range(2, j['arg_count'] + 1)]
         ok = False
-        if is_call(t, '^' + re.escape(short(ti)) + '$'):
-            recv = t[2][0]
-            ok = is_var(recv, 'self') and [peel(a) for a in t[2][1:]] == params
-        elif name in ('try_find', 'try_find_overlapping') and is_call(t, r'^automaton::%s_fwd$' % name):
-            ok = is_var(peel(t[2][0]), 'self') and [peel(a) for a in t[2][1:]] == params
+        t = canon(rows[0].ret) if len(rows) == 1 and rows[0].ret is not None else ('s', '%d paths' % len(rows))
+        if len(rows) == 1 and rows[0].end == 'return' and not rows[0].conds and not rows[0].stores():
+            if is_call(t, '^' + re.escape(short(ti)) + '$'):
+                ok = cstr(t[2][0]) == 'self' and [cstr(a) for a in t[2][1:]] == params
+            elif name in ('try_find', 'try_find_overlapping') and is_call(t, r'^automaton::%s_fwd$' % name):
+                ok = cstr(t[2][0]) == 'self' and [cstr(a) for a in t[2][1:]] == params
         n += 1
         per[j['impl_self']] = per.get(j['impl_self'], 0) + 1
         info = name == 'memory_usage'
